@@ -290,6 +290,9 @@ func (tt *TagTree) flushSingleTagsTree(tagKey string, tagsTreeBase string) error
 	if err != nil {
 		return err
 	}
+	if !utils.IsSafePathComponent(tagKey) {
+		return fmt.Errorf("TagTree.flushSingleTagsTree: tag key %q cannot be used as a file name", tagKey)
+	}
 	fName := getTagsTreeFileName(tagKey, tagsTreeBase)
 	encodedTT, err := tt.encodeTagsTree()
 	if err != nil {
